@@ -60,12 +60,19 @@ let do_mop (w : string array) : unit =
   let tabs = if lagged then gen_tables_lagged else gen_tables in
   let blist () = let k = ni () in List.init k (fun _ -> nb ()) in
   let nlist () = let k = ni () in List.init k (fun _ -> nn ()) in
+  let sched_args = ref (O, []) in
+  if opname = "sched" then begin
+    let step = nn () in let k = ni () in
+    let ots = List.init k (fun _ -> let o = nn () in let t = nn () in (o, t)) in
+    sched_args := (step, ots)
+  end;
   let op =
     match opname with
     | "deletebias" -> let b = nn () in MDeleteBias b
     | "deletecolvar" -> let v = nn () in MDeleteColvar v
     | "reset" -> MReset
     | "check" -> MReset   (* not executed: wf_check / acct_check of the given state *)
+    | "sched" -> MReset   (* not executed: m_sched with the arguments collected below *)
     | "enable" -> let o = nn () in let f = nn () in MPrim (OpEnable (o, f, false, true, false))
     | "disable" -> let o = nn () in let f = nn () in MPrim (OpDisable (o, f))
     | "newcolvar" ->
@@ -96,6 +103,11 @@ let do_mop (w : string array) : unit =
   let na = ni () in
   let atoms = List.init na (fun _ -> z_of_int (ni ())) in
   let m = { m_objs = st; m_info = info; m_atoms = atoms } in
+  if opname = "sched" then
+    (match m_sched tabs fuel (fst !sched_args) (snd !sched_args) m with
+     | None -> print_string "FUEL\n"
+     | Some m' -> Printf.printf "0 %s\n" (print_mstate m'))
+  else
   if opname = "check" then
     Printf.printf "%d %d\n" (if wf_check m then 1 else 0) (if acct_check m then 1 else 0)
   else
